@@ -13,7 +13,7 @@
    transport with the same id). *)
 From Coq Require Import List ZArith Bool.
 Import ListNotations.
-From Goat Require Import Model.Client Model.Server Model.Sys Proofs.SysLog Proofs.SysProofs Proofs.SysFacts Proofs.SysC01.
+From Goat Require Import Model.Client Model.Server Model.Sys Proofs.SysLog Proofs.SysProofs Proofs.SysFacts Proofs.SysC01 Proofs.SysC01b.
 Open Scope Z_scope.
 
 (* every run of the system is a run of the client model and a run of the server model *)
@@ -64,6 +64,24 @@ Theorem C01_pairing : forall f ls s c k b, Sys.lrun (pol_c01 f) Sys.init ls = So
 Proof. exact SysC01.C01_pairing. Qed.
 Print Assumptions C01_pairing.
 
+(* exactly once: for a unary call that returned successfully the server's handler-invocation log has exactly
+   one unary entry with the call's id *)
+Theorem C01_exactly_once : forall f ls s c k b, Sys.lrun (pol_c01 f) Sys.init ls = Some s ->
+  nth_error (calls (cl s)) c = Some k -> k_unary k = true ->
+  In (EvUnaryRet c (UOk b)) (Client.log (cl s)) ->
+  inv_count (k_id k) (Server.log (sv s)) = 1%nat.
+Proof. exact SysC01b.C01_exactly_once. Qed.
+Print Assumptions C01_exactly_once.
+
+(* no fabrication: every unary handler invocation belongs to exactly one call, that call is unary, and the
+   request the handler was given is that call's payload *)
+Theorem C01_no_fabrication : forall f ls s h id m p md, Sys.lrun (pol_c01 f) Sys.init ls = Some s ->
+  In (SvInvoke h true id m p md) (Server.log (sv s)) ->
+  exists c k, nth_error (calls (cl s)) c = Some k /\ k_id k = id /\ k_unary k = true /\ p = k_payload k /\
+              (forall c' k', nth_error (calls (cl s)) c' = Some k' -> k_id k' = id -> c' = c).
+Proof. exact SysC01b.C01_no_fabrication. Qed.
+Print Assumptions C01_no_fabrication.
+
 (* the hypotheses are met by concrete, non-trivial runs: three calls one after the other, and three calls
    in flight at once; each returns mix3 of its own payload, and the final state is quiescent *)
 Example C01_demo_sequential :
@@ -79,6 +97,7 @@ Example C01_demo_concurrent :
   | Some s => In (EvUnaryRet 0 (UOk (mix3 5))) (Client.log (cl s)) /\ In (EvUnaryRet 1 (UOk (mix3 7))) (Client.log (cl s))
               /\ In (EvUnaryRet 2 (UOk (mix3 0))) (Client.log (cl s)) /\ Sys.quiescent s = true
               /\ length (filter h_unary (hs (sv s))) = 3%nat
+              /\ inv_count 1 (Server.log (sv s)) = 1%nat /\ inv_count 2 (Server.log (sv s)) = 1%nat
   | None => False
   end.
 Proof. vm_compute. tauto. Qed.
